@@ -83,6 +83,18 @@ Theorem C29_clear_removes : forall c p w w',
 Proof. exact clear_removes. Qed.
 Print Assumptions C29_clear_removes.
 
+(* The end of an extensioned path that exists but is neither a regular file
+   nor a directory (FIFO, unix socket, symbolic link to a directory — what a
+   uxd Peer leaves there): clearing a persistent Filer removes exactly that
+   end; every other path keeps its existence. *)
+Theorem C29_clear_special_end : forall c p w,
+  c_ext c = true -> c_temp c = false ->
+  exists_ (w_fs w) p = true -> isfile (w_fs w) p = false -> isdir (w_fs w) p = false ->
+  clear c p w = (Ok tt, do_remove w p) /\
+  (forall q, q <> p -> exists_ (w_fs (do_remove w p)) q = exists_ (w_fs w) q).
+Proof. exact clear_ext_other. Qed.
+Print Assumptions C29_clear_special_end.
+
 (* ---- histories: the constructor followed by any reopen(temp, fext, clear,
    reuse, clean) / close(clear) calls and direct remake(name, base, temp,
    clean, filed, extensioned, fext) calls (any name/base, also different from
@@ -166,9 +178,9 @@ Example C29_history_example :
   let c := {| c_name := [s 120]%N; c_base := [s 98]%N; c_temp := false; c_clean := false;
               c_filed := true; c_ext := false; c_fext := s 116%N; c_head := [s 104]%N; c_alt := [s 97]%N;
               c_tmp := [s 116; [84; 48]]%N |} in
-  let sib := ([s 104; HIO; s 98; s 115], true)%N in
-  let w := {| w_fs := [([s 104], false); ([s 97], false); ([s 116], false); ([s 104; HIO], false);
-                       ([s 104; HIO; s 98], false); sib]%N; w_log := [] |} in
+  let sib := ([s 104; HIO; s 98; s 115], KFile)%N in
+  let w := {| w_fs := [([s 104], KDir); ([s 97], KDir); ([s 116], KDir); ([s 104; HIO], KDir);
+                       ([s 104; HIO; s 98], KDir); sib]%N; w_log := [] |} in
   forall p w1, remake c w = (Ok p, w1) ->
   let obs := run_hops c (born c p) true [H (HReopen (Some true) None true false false); HDoerEnter (Some false);
                                          HDoerExit] w1 in
@@ -191,7 +203,7 @@ Example C29_example :
   let c := {| c_name := [s 97; [46; 46]; s 120]%N; c_base := [s 98]%N; c_temp := true; c_clean := false;
               c_filed := true; c_ext := false; c_fext := s 116%N; c_head := [s 104]%N; c_alt := [s 97]%N;
               c_tmp := [s 116; s 84]%N |} in
-  let w := {| w_fs := [([s 104], false); ([s 97], false); ([s 116], false)]%N; w_log := [] |} in
+  let w := {| w_fs := [([s 104], KDir); ([s 97], KDir); ([s 116], KDir)]%N; w_log := [] |} in
   fst (remake c w) = Ok [s 116; s 84; HIO; s 98; [120; 46; 116]]%N /\
   length (w_log (snd (remake c w))) = 4 /\
   (forall p, fst (remake c w) = Ok p -> w_fs (snd (clear c p (snd (remake c w)))) = w_fs w) /\
